@@ -121,6 +121,7 @@ INDEX = {
  ]},
  "C21": {"package": ".", "harnesses": [
    {"name": "VerifH21FragSources", "common": {"max_depth": 3000}, "quick": {"bounds": {"nodes": 1, "replicas": 2, "shards": 2}}, "thorough": {"bounds": {"nodes": 2, "replicas": 2, "shards": 3}}},
+   {"name": "VerifH21Job", "common": {"max_depth": 3000}, "quick": {"bounds": {"nodes": 1, "replicas": 2, "shards": 2}}, "thorough": {"bounds": {"nodes": 2, "replicas": 2, "shards": 2}}},
  ]},
  "C22": {"package": ".", "harnesses": [
    {"name": "VerifH22Completions", "thorough_ok": True, "common": {"max_depth": 3000}, "quick": {"bounds": {"events": 3}}, "thorough": {"bounds": {"events": 4}}},
